@@ -468,38 +468,47 @@ def run(repo, rep, tier):
     if len(helpers) < 3:
         raise AnalysisError('_methodcall: value helpers with a list branch '
                             'not found (%d)' % len(helpers))
+    from ..paths import return_paths as _rp6, _Block as _B6
+    from ..cfg import GuardWalker as _GW6
     for g in helpers:
         r6.sites += 1
         r6.functions.add(g.fq)
-        for br in walk_no_nested(g.node):
-            if not (isinstance(br, ast.If) and
-                    'isinstance(obj, list)' in norm(br.test)):
+        # every way the helper answers for a list: what it returns is built
+        # from calls of itself on the items (or is a constant - the empty /
+        # NULL case), whichever way the branches are written
+        gpaths = _rp6(_B6(g.node.body, mf), max_paths=300, inline=False) or []
+        seen_list = False
+        for p_ in gpaths:
+            atoms = [a_ for t0, p0 in p_.facts
+                     for a_ in _GW6._atoms(t0, p0)]
+            if not any(pol and 'isinstance(obj, list)' in norm(t)
+                       for t, pol in atoms):
                 continue
-            rets = [x for st in br.body for x in ast.walk(st)
-                    if isinstance(x, ast.Return)]
-            falls = [st for st in br.body if isinstance(st, ast.Assign)
-                     and norm(st.targets[0]) == 'obj']
-            for rt in rets:
-                rec = [c for c in ast.walk(rt) if isinstance(c, ast.Call)
-                       and isinstance(c.func, ast.Name) and
-                       c.func.id == g.name]
-                ok = bool(rec) or (isinstance(rt.value, ast.Constant))
-                r6.ob(ok, '%s|%s' % (g.name, norm(rt, 70)),
-                      {'helper': g.name, 'list_branch_return': norm(rt, 90),
-                       'recurses_per_item': bool(rec)})
-                if not ok:
-                    rep.finding(r6, g.qualname, norm(rt, 70), 'array-items',
-                                OPS, rt.lineno,
-                                'the list branch of %s() does not encode '
-                                'the items with %s() itself: an array '
-                                'parameter is not sent as the array of what '
-                                'its items are as scalars' % (g.name,
-                                                              g.name))
-            if not rets and not falls:
-                r6.ob(False, g.name + '|list-branch')
-                rep.finding(r6, g.qualname, norm(br.test), 'array-items',
-                            OPS, br.lineno, 'list branch neither returns '
-                            'nor recurses')
+            seen_list = True
+            v = p_.resolve(p_.value) if p_.value is not None else None
+            rec = v is not None and any(
+                isinstance(c, ast.Call) and isinstance(c.func, ast.Name) and
+                c.func.id == g.name for c in ast.walk(v))
+            ok = rec or v is None or isinstance(v, ast.Constant)
+            r6.ob(ok, '%s|%s' % (g.name, norm(v, 70) if v is not None
+                                 else 'None'),
+                  {'helper': g.name, 'list_branch_return':
+                   norm(v, 90) if v is not None else None,
+                   'recurses_per_item': rec})
+            if not ok:
+                rt = p_.ret_stmt if p_.ret_stmt is not None else g.node
+                rep.finding(r6, g.qualname, norm(rt, 70), 'array-items',
+                            OPS, getattr(rt, 'lineno', g.node.lineno),
+                            'the list branch of %s() does not encode '
+                            'the items with %s() itself: an array '
+                            'parameter is not sent as the array of what '
+                            'its items are as scalars' % (g.name, g.name))
+                break
+        if not seen_list:
+            r6.ob(False, g.name + '|list-branch')
+            rep.finding(r6, g.qualname, 'isinstance(obj, list)',
+                        'array-items', OPS, g.node.lineno,
+                        'list branch neither returns nor recurses')
 
     # ---- R4 ---------------------------------------------------------------
     from .. import dtd as dtdmod
@@ -780,6 +789,79 @@ def run(repo, rep, tier):
                             'initialise WBEMConnection.default_namespace '
                             '(anchor of C04.R3b)')
 
+    _r16_default_only_when_omitted(repo, rep, conn)
+
+
+def _r16_default_only_when_omitted(repo, rep, conn):
+    """C04.R16: on the operation path the connection default replaces a
+    namespace only where none was given (`is None`).  An empty namespace
+    ('' after stripping '/', or the namespace of an object path) is a value
+    the caller supplied: executed directly it is an invalid namespace; a
+    transport that quietly turns it into the default sends the request to a
+    namespace the caller did not name."""
+    from ..cfg import stmt_facts, expr_guards
+    r16 = rep.rule('C04.R16', 'the default namespace is applied only to an '
+                   'omitted (None) namespace on the operation path')
+    mock = repo.cls(MOCK, 'FakedWBEMConnection')
+    skip = ('__init__', 'copy', '_set_default_namespace', '__repr__',
+            '__str__')
+    funcs = [f for n, f in conn.methods.items() if n not in skip] + \
+        [f for n, f in mock.methods.items() if n.startswith('_mock_')]
+
+    def is_default(e):
+        return isinstance(e, ast.Attribute) and \
+            e.attr in ('default_namespace', '_default_namespace') and \
+            isinstance(e.value, ast.Name) and e.value.id == 'self'
+
+    def none_test(t, pol, who):
+        """the fact says `who is None`"""
+        if isinstance(t, ast.Compare) and len(t.ops) == 1 and \
+                norm(t.left) == who and \
+                isinstance(t.comparators[0], ast.Constant) and \
+                t.comparators[0].value is None:
+            return (isinstance(t.ops[0], ast.Is) and pol) or \
+                (isinstance(t.ops[0], ast.IsNot) and not pol)
+        return False
+    for f in funcs:
+        sf = None
+        for st in walk_no_nested(f.node):
+            if not (isinstance(st, ast.Assign) and len(st.targets) == 1):
+                continue
+            tgt = norm(st.targets[0])
+            if tgt.startswith('self.'):
+                continue
+            v = st.value
+            verdict = None
+            if is_default(v):
+                if sf is None:
+                    sf = stmt_facts(f.node)
+                facts = sf.get(st, ((), ()))[0]
+                verdict = any(none_test(t, pol, tgt) for t, pol in facts)
+            elif isinstance(v, ast.BoolOp) and \
+                    any(is_default(x) for x in v.values):
+                verdict = False
+            elif isinstance(v, ast.IfExp) and \
+                    (is_default(v.body) or is_default(v.orelse)):
+                other = v.orelse if is_default(v.body) else v.body
+                verdict = none_test(v.test, is_default(v.body), norm(other))
+            if verdict is None:
+                continue
+            r16.sites += 1
+            r16.functions.add(f.fq)
+            r16.ob(verdict, '%s|%s' % (f.qualname, norm(st, 70)))
+            if not verdict:
+                rep.finding(r16, f.qualname, norm(st, 80),
+                            'default-for-given-namespace', f.file,
+                            st.lineno,
+                            'the connection default namespace replaces a '
+                            'namespace that is not known to be None: an '
+                            'empty namespace supplied by the caller is sent '
+                            'to the server as the default namespace, while '
+                            'the same operation done directly is refused')
+    if r16.sites < 3:
+        raise AnalysisError('C04.R16: only %d default-namespace fallbacks '
+                            'found on the operation path' % r16.sites)
+
 
 def _linearity(repo, rep):
     """C04.R7: element nodes are linear (see pwsa/linear.py)"""
@@ -947,16 +1029,24 @@ def iparam_typed_by_name(repo, rep, ops):
                     sent.add(k.arg.lower())
     convs = []
     for st, (facts, _t) in stmt_facts(f.node).items():
-        if not isinstance(st, ast.Assign):
+        if isinstance(st, ast.Assign):
+            vals = [st.value]
+        elif isinstance(st, ast.Return) and st.value is not None:
+            # the converted value may be returned directly (as an item of
+            # the (name, value) pair)
+            vals = list(st.value.elts) if isinstance(
+                st.value, ast.Tuple) else [st.value]
+        else:
             continue
-        v = st.value
-        is_bool = (isinstance(v, ast.Compare) and any(
-            isinstance(x, ast.Constant) and
-            str(x.value).lower() in ('true', 'false')
-            for x in ast.walk(v))) or \
-            (isinstance(v, ast.Call) and dotted(v.func) == 'bool') or \
-            (isinstance(v, ast.Constant) and isinstance(v.value, bool))
-        if is_bool:
+
+        def is_bool(v):
+            return (isinstance(v, ast.Compare) and any(
+                isinstance(x, ast.Constant) and
+                str(x.value).lower() in ('true', 'false')
+                for x in ast.walk(v))) or \
+                (isinstance(v, ast.Call) and dotted(v.func) == 'bool') or \
+                (isinstance(v, ast.Constant) and isinstance(v.value, bool))
+        if any(is_bool(v) for v in vals):
             convs.append((st, facts))
     if not convs:
         raise AnalysisError('parse_iparamvalue: boolean conversion not found')
